@@ -43,6 +43,31 @@ def batch_limits(F):
     return out
 
 
+def stream_item_checks(F):
+    """The streaming write RPCs bypass validate_insert_request and check each item inline.  Decided for every doc_id, length and
+    running count (DECIDES over the server binary's MIR, one region per received item, from the per-item rate-limit decision on):
+    BulkInsert reaches engine.insert, and BulkLoadHnsw queues the item, only if doc_id >= MIN_DOC_ID, the embedding is non-empty
+    and at most MAX_EMBEDDING_DIM long, the tenant-local id maps (map_doc_id -> Ok) and the running count is inside the
+    stream's cap; Insert reaches the engine only after validate_insert_request -> Ok and map_doc_id -> Ok.
+    (Non-finite lanes are refused below, by the engine: O15.4.)"""
+    from vlib import mirdec as MD
+    RPCN = lambda n: "<KyroDBServiceImpl as KyroDbService>::%s::{closure#0}::{closure#0}" % n
+    ITEM = Arm(r"^discr\(try\(call KyroDBServiceImpl::enforce_rate_limit\)\)$", {"0"}, name="per-item enforce_rate_limit()? -> Ok", nth=1)
+    common = [("doc_id", r"InsertRequest\)\}\.\d+: u64\)$"), ("min_id", r"^const (kyrodb_engine::api_validation::|api_validation::)?MIN_DOC_ID$"), ("empty", r"^call Vec::<f32>::is_empty$"),
+              ("len", r"^call Vec::<f32>::len$"), ("max_dim", r"^const (kyrodb_engine::api_validation::|api_validation::)?MAX_EMBEDDING_DIM$"), ("map_err", r"^discr:call KyroDBServiceImpl::map_doc_id$")]
+    NEXT_ITEM = call(r"async fn body of Streaming<.*>::message\(\)\} as .*Future>::poll\(", name="stream.message().await (next item)")
+    out = []
+    out += MD.decides(F, RPCN("bulk_insert"), ITEM, {"engine": call(r"= TieredEngine::insert\(", name="engine.insert(item)")},
+                      common + [("count", r"as variant#\d+\)\.\d+: u64\)$"), ("max_batch", r"^const MAX_BATCH_SIZE$"), ("quota_err", r"^discr:call KyroDBServiceImpl::enforce_vector_quota$")],
+                      {"engine": ("=>", "(and (>= doc_id min_id) (not empty) (<= len max_dim) (= map_err 0) (= quota_err 0) (<= count max_batch))")},
+                      declare=("empty",), stop=NEXT_ITEM, what="BulkInsert hands an item to the engine only inside the documented limits")
+    out += MD.decides(F, RPCN("bulk_load_hnsw"), ITEM, {"queue": call(r"= Vec::<\(u64, Vec<f32>, HashMap<.*String, .*String>\)>::push\(", name="documents.push(item)")},
+                      common + [("count", r"as variant#\d+\)\.\d+: u64\)$"), ("max_total", r"^const MAX_TOTAL_BULK_LOAD_DOCUMENTS$")],
+                      {"queue": ("=>", "(and (>= doc_id min_id) (not empty) (<= len max_dim) (= map_err 0) (<= count max_total))")},
+                      declare=("empty",), stop=NEXT_ITEM, what="BulkLoadHnsw queues an item for loading only inside the documented limits")
+    return out
+
+
 def insert_decision(F):
     """validate_insert_request: Ok <=> doc_id >= MIN_DOC_ID and the embedding is non-empty, at most MAX_EMBEDDING_DIM long and all
     finite — the whole decision, for every value of doc_id and of the length (DECIDES; the emptiness and finiteness tests are
@@ -59,6 +84,8 @@ def insert_decision(F):
 MOS = [
     MO("O15.6/batch_limits", "BatchDelete (ids) / BulkQuery: engine call => id count <= MAX_BATCH_SIZE — for every count (DECIDES over the server binary's MIR)", batch_limits,
        functions=[("bin/kyrodb_server.rs", "batch_delete"), ("bin/kyrodb_server.rs", "bulk_query")], target="kyrodb_server"),
+    MO("O15.7/stream_item_checks", "BulkInsert / BulkLoadHnsw: an item reaches the engine / the load queue only if doc_id >= MIN_DOC_ID, 0 < len <= MAX_EMBEDDING_DIM, map_doc_id -> Ok and the running count is within the stream cap — for every value (DECIDES, server binary)",
+       stream_item_checks, functions=[("bin/kyrodb_server.rs", "bulk_insert"), ("bin/kyrodb_server.rs", "bulk_load_hnsw")], target="kyrodb_server"),
     MO("O15.5/insert_decision", "validate_insert_request: Ok <=> doc_id >= MIN_DOC_ID, embedding non-empty, length <= MAX_EMBEDDING_DIM, all lanes finite — whole decision for every doc_id and length (DECIDES)",
        insert_decision, functions=[("api_validation.rs", "validate_insert_request")]),
     MO("O15.4/engine_refusal", "every engine write path goes through HnswBackend::insert, which runs normalize_in_place_if_needed and the index's own acceptance test (finite lanes, norm band) before the WAL append "
